@@ -856,3 +856,20 @@ pub fn zstd_block_ends(blob: &[u8]) -> Vec<usize> {
     }
     v
 }
+
+/// a file that is LARGER than its expanded form: noise stored in many small stored blocks
+/// (zlib level 0-3, memLevel 1-2), wrapped as zlib or as PNG IDAT chunks
+pub fn gen_file_larger_than_expanded(rng: &mut Rng) -> Vec<u8> {
+    let n = rng.range(8_000, 60_000) as usize;
+    let mut plain = vec![0u8; n];
+    rng.fill(&mut plain);
+    let c = Compressor::Zlib {
+        level: rng.range(0, 3) as i32,
+        strategy: 0,
+        window_bits: 15,
+        mem_level: rng.range(1, 2) as i32,
+    };
+    let raw = c.compress(&plain);
+    let w = if rng.chance(1, 2) { Wrapper::Zlib(0) } else { Wrapper::Png(rng.range(2, 5) as u8) };
+    wrap(rng, &w, &raw, &plain)
+}
